@@ -19,9 +19,125 @@ pub fn run(cx: &mut Ctx) {
     string_ranges(cx, &g);
     ranged_impls(cx);
     text_range_literals(cx);
+    handwritten_ranges(cx, &g);
     crate::rules::lexer_rules::byte_accounting(cx, "C02.N1");
     crate::rules::lexer_rules::lex_fn_ranges(cx, "C02.L1");
     crate::rules::lexer_rules::operator_trie(cx, "C02.O1");
+}
+
+/// C02.R9: node ranges assigned outside the grammar (function.rs, context.rs, string.rs).
+fn handwritten_ranges(cx: &mut Ctx, g: &Grammar) {
+    let rule = "C02.R9";
+    cx.rule(rule, "ranges assigned by hand-written code: (a) the keyword-argument alternatives of FunctionArgument hand parse_args the @L capture before their first symbol and the @R capture after their last; (b) parse_args gives ast::Keyword exactly that pair, in order (never a child's .start()/.end(), which drops parentheses); (c) every other `range` initialiser in function.rs / context.rs / string.rs is one of the reviewed forms — the `range` destructured from the node being rebuilt, StringParser::range(), or first-start..last-end of the concatenated tokens (R5) — and none calls .start()/.end()/.range() on a child");
+    cx.floor(rule, 20);
+    // (a)
+    match g.def("FunctionArgument") {
+        None => cx.anchor_missing(rule, "FunctionArgument"),
+        Some(d) => {
+            let mut n = 0;
+            for a in &d.alts {
+                let Some(act) = &a.action else { continue };
+                let code: String = act.code.chars().filter(|c| !c.is_whitespace()).collect();
+                let Some(rest) = code.strip_prefix("(Some((") else { continue };
+                n += 1;
+                let parts: Vec<&str> = rest.split(',').collect();
+                let first_cap = a.syms.first().and_then(|s| if matches!(s.kind, SymKind::Lookahead) { s.binding.clone() } else { None });
+                let last_cap = a.syms.last().and_then(|s| if matches!(s.kind, SymKind::Lookbehind) { s.binding.clone() } else { None });
+                if parts.len() >= 2 && Some(parts[0].to_string()) == first_cap && Some(parts[1].to_string()) == last_cap {
+                    cx.ok(rule, &format!("{}: passes ({}, {}) = (@L before the first symbol, @R after the last)", alt_key(d, a), parts[0], parts[1]));
+                } else {
+                    cx.fail(rule, &format!("{}/{}", rule, alt_key(d, a)), &lal(a), &format!("keyword alternative passes ({}) to parse_args; expected its leading @L and trailing @R captures ({:?}, {:?})", parts.iter().take(2).cloned().collect::<Vec<_>>().join(", "), first_cap, last_cap));
+                }
+            }
+            if n != 2 {
+                cx.fail(rule, &format!("{}/FunctionArgument/count", rule), "parser/src/python.lalrpop", &format!("{} keyword alternatives found in FunctionArgument (2 expected: name=value and **value)", n));
+            }
+        }
+    }
+    // (b) + (c)
+    for rel in ["parser/src/function.rs", "parser/src/context.rs", "parser/src/string.rs"] {
+        let src = match sm::load(&cx.repo, rel) {
+            Ok(s) => s,
+            Err(e) => {
+                cx.anchor_missing(rule, &e);
+                continue;
+            }
+        };
+        // struct literals with a `range` field, with the stack of enclosing arm patterns
+        struct V<'a> {
+            arms: Vec<&'a syn::Pat>,
+            out: Vec<(&'a syn::ExprStruct, Vec<&'a syn::Pat>)>,
+        }
+        impl<'a> syn::visit::Visit<'a> for V<'a> {
+            fn visit_item_mod(&mut self, m: &'a syn::ItemMod) {
+                if !sm::is_cfg_test(&m.attrs) {
+                    syn::visit::visit_item_mod(self, m);
+                }
+            }
+            fn visit_arm(&mut self, a: &'a syn::Arm) {
+                self.arms.push(&a.pat);
+                syn::visit::visit_arm(self, a);
+                self.arms.pop();
+            }
+            fn visit_expr_struct(&mut self, s: &'a syn::ExprStruct) {
+                if s.fields.iter().any(|f| matches!(&f.member, syn::Member::Named(n) if n == "range")) {
+                    self.out.push((s, self.arms.clone()));
+                }
+                syn::visit::visit_expr_struct(self, s);
+            }
+        }
+        use syn::visit::Visit;
+        let mut v = V { arms: vec![], out: vec![] };
+        v.visit_file(&src.file);
+        let mut per_ty: BTreeMap<String, usize> = BTreeMap::new();
+        for (lit, arms) in &v.out {
+            let ty = sm::tsc(&lit.path);
+            let k = per_ty.entry(ty.clone()).or_insert(0);
+            *k += 1;
+            let key = format!("{}/{}/{}#{}", rule, rel.rsplit('/').next().unwrap(), ty, k);
+            let f = lit.fields.iter().find(|f| matches!(&f.member, syn::Member::Named(n) if n == "range")).unwrap();
+            let init = sm::tsc(&f.expr);
+            let child_call = {
+                let mut bad = false;
+                sm::for_each_expr(&f.expr, |e| {
+                    if let syn::Expr::MethodCall(mc) = e {
+                        let m = mc.method.to_string();
+                        if (m == "start" || m == "end" || m == "range") && sm::tsc(&mc.receiver) != "self" {
+                            bad = true;
+                        }
+                    }
+                });
+                bad
+            };
+            if child_call {
+                cx.fail(rule, &key, &src.loc(*lit), &format!("{} range `{}` is derived from a child's .start()/.end()/.range(): a parenthesised child keeps its inner range, so this drops delimiters", ty, init));
+                continue;
+            }
+            let ok = if ty == "ast::Keyword" {
+                // TextRange::new(x, y) with (x, y, _) the tuple pattern of the innermost enclosing `Some((x, y, _))` arm
+                let want = arms.iter().rev().find_map(|p| {
+                    let t = sm::tsc(*p);
+                    let inner = t.strip_prefix("Some((")?.strip_suffix("))")?;
+                    let ids: Vec<String> = inner.split(',').map(|x| x.to_string()).collect();
+                    if ids.len() == 3 { Some(format!("TextRange::new({},{})", ids[0], ids[1])) } else { None }
+                });
+                want.as_deref() == Some(init.as_str())
+            } else if init == "range" {
+                // shorthand or explicit: `range` must be bound by the innermost enclosing arm pattern that destructures the same node type
+                arms.iter().rev().any(|p| {
+                    let t = sm::tsc(*p);
+                    t.contains(&format!("{}{{", ty)) && (t.contains(",range,") || t.contains("{range,") || t.contains(",range}"))
+                })
+            } else {
+                init == "self.range()" || init == "TextRange::new(initial_start,last_end)"
+            };
+            if ok {
+                cx.ok(rule, &format!("{}: {} range = {}", rel, ty, init));
+            } else {
+                cx.fail(rule, &key, &src.loc(*lit), &format!("{} range `{}` is not one of the reviewed forms (captures passed by the grammar / the rebuilt node's own range / the token range)", ty, init));
+            }
+        }
+    }
 }
 
 #[derive(Debug, Clone, PartialEq)]
